@@ -96,9 +96,11 @@ pub fn field_write<T>(p: *const T) {
     hook(FIELD_WRITE, p as usize, 0, 0);
 }
 
+/// Protocol-level events: 1 = `KanalPtr` payload write begins, 2 = payload read
+/// begins (detail = address of the pointer cell).
 #[inline]
 pub fn note(code: u64, detail: u64) {
-    hook(NOTE, 0, code, detail);
+    hook(NOTE, detail as usize, code, 0);
 }
 
 pub mod core {
